@@ -172,7 +172,7 @@ fn bucket(n: usize) -> String {
 
 // ---------------------------------------------------------------- writer
 
-struct Sink { files: Vec<std::io::BufWriter<std::fs::File>>, next_id: usize, stats: Stats, steps: usize }
+struct Sink { files: Vec<std::io::BufWriter<std::fs::File>>, next_id: usize, stats: Stats, steps: usize, tmp: String }
 
 impl Sink {
   fn outcome_lines(o: &Outcome, tag: &str, rec: &mut String) {
@@ -219,6 +219,23 @@ impl Sink {
           if via_text.as_ref() != Some(&s) { let _ = writeln!(rec, "W text-path-differs-from-to_value"); }
           let o2 = real_load(&s);
           Sink::outcome_lines(&o2, "R2", &mut rec);
+          // ... and literally as the service does it: the file written with to_writer_pretty (as
+          // write_layout_to_global_config does) and read with layout_loading::load_layout_from_file
+          {
+            let path = self.tmp.clone();
+            let wrote = std::fs::File::create(&path).ok().and_then(|f| serde_json::to_writer_pretty(std::io::BufWriter::new(f), l).ok());
+            if wrote.is_some() {
+              let r3 = catch_unwind(AssertUnwindSafe(|| crate::layout_loading::load_layout_from_file(&path)));
+              let o3 = match r3 { Err(_) => Outcome::Panic, Ok(Err(e)) => Outcome::Err(e), Ok(Ok(l3)) => Outcome::Ok(l3) };
+              let same = match (&o2, &o3) {
+                (Outcome::Ok(a), Outcome::Ok(b)) => a.mappings == b.mappings,
+                (Outcome::Err(_), Outcome::Err(_)) => true,
+                (Outcome::Panic, Outcome::Panic) => true,
+                _ => false,
+              };
+              if !same { let _ = writeln!(rec, "W load_layout_from_file-on-the-saved-file-differs-from-parse+convert-on-to_value"); }
+            } else { let _ = writeln!(rec, "W cannot-write-the-saved-layout-file"); }
+          }
           st.reloads += 1;
         },
         _ => { let _ = writeln!(rec, "X serde_json::to_value"); }
@@ -742,7 +759,7 @@ pub fn main(args: &[String]) -> i32 {
   std::fs::create_dir_all(&out).ok();
   let mut files = vec![];
   for i in 0..nfiles { files.push(std::io::BufWriter::new(std::fs::File::create(format!("{}/cases-{:02}.txt", out, i)).expect("cannot create case file"))); }
-  let mut sink = Sink { files, next_id: 0, stats: Stats::default(), steps };
+  let mut sink = Sink { files, next_id: 0, stats: Stats::default(), steps, tmp: format!("{}/saved-layout.json", out) };
   let mut rng = Rng::new(seed);
   let keys = all_keys();
   // (ident, serde name) of every key, from the real Display / Serialize impls
@@ -787,6 +804,21 @@ pub fn main(args: &[String]) -> i32 {
   }
   for _ in 0..(1500 * scale) {
     let l = gen_basic(&mut rng, &keys);
+    let v = serde_json::to_value(&l).unwrap_or(Value::Null);
+    sink.case("basic", &v, Some(&l), &mut rng);
+  }
+  // one very large saved layout (several hundred kB of JSON): the save path, the file and the reload must cope
+  // with sizes far beyond the built-in layouts
+  {
+    let mut ms: Vec<Mapping> = vec![];
+    'outer: for a in &keys {
+      for b in &keys {
+        if a == b { continue; }
+        ms.push(Mapping { from: vec![*a, *b], to: vec![*b], repeat: if ms.len() % 3 == 0 { Repeat::Disabled } else { Repeat::Normal }, absorbing: vec![] });
+        if ms.len() >= 2600 * scale.max(1).min(3) { break 'outer; }
+      }
+    }
+    let l = Layout { mappings: ms };
     let v = serde_json::to_value(&l).unwrap_or(Value::Null);
     sink.case("basic", &v, Some(&l), &mut rng);
   }
